@@ -172,6 +172,7 @@ def strategies() -> Any:
             out["evofw3"] = draw(st.booleans())
         else:
             out["eavesdrop"] = draw(st.booleans())
+            out["cached"] = draw(st.integers(0, 2)) == 0  # the rx frames are also handed to start() as an earlier session's packet cache
             if out["active"] is None:  # the gateway rig needs a radio id; 'unknown' = the signature is never echoed (HGI80-like)
                 # the library then predicts the id from the known list (explicit 'class: HGI' first, else the first 18:); a
                 # well-configured system is the common case (a wrong prediction only makes echoes unrecognisable: C06/C07)
@@ -293,8 +294,17 @@ async def _run_gateway(loop: Any, case: dict) -> dict:
     gwy = Gateway("sim://0", config=cfg, loop=loop, known_list=known, block_list=block)
     obs: dict[str, Any] = {"rx": [], "tx": [], "undecodable": 0, "active_seen": None}
     try:
-        await gwy.start()
+        cached = None
+        if case.get("cached"):
+            # a packet cache from an earlier session (the lists may have changed since): the same frames, stamped a few seconds ago
+            from datetime import timedelta
+
+            t0 = vclock.EPOCH + timedelta(seconds=loop.time()) - timedelta(seconds=30)
+            cached = {(t0 + timedelta(milliseconds=37 * i)).isoformat(timespec="microseconds"): f"045 {fr}" for i, fr in enumerate(case["rx"])}
+        await gwy.start(cached_packets=cached)
         await vclock.quiesce()
+        if cached is not None:
+            obs["devices_after_restore"] = sorted(gwy.device_by_id)
         obs["active_seen"] = gwy._transport.get_extra_info("active_gwy")
         port.drop_tx = None
         got: list[Any] = []
@@ -394,6 +404,8 @@ def judge(case: dict, obs: dict, col: Collector | None = None) -> list[tuple[dic
     # devices
     if level == "gateway":
         for dev_id in obs.get("devices", []):
+            if dev_id in obs.get("devices_after_restore", []):
+                continue  # judged below, under the path that created it
             ok, why = id_ok(dev_id, cfg, sending=False)
             if col is not None:
                 col.case(classes=["gateway:device", f"dev:{why}"])
@@ -401,6 +413,18 @@ def judge(case: dict, obs: dict, col: Collector | None = None) -> list[tuple[dic
                 via = "payload" if any(dev_id in v for v in case.get("payload_devs", {}).values()) and \
                     not any(dev_id in (f[7:16], f[17:26], f[27:36]) for f in case["rx"] + case["tx"]) else "address"
                 out.append(({"clause": "device-for-disallowed-id", "why": why, "via": via}, f"device {dev_id} exists although {why} under {_cfg_brief(case)}"))
+        for dev_id in obs.get("devices_after_restore", []):
+            ok, why = id_ok(dev_id, cfg, sending=False)
+            if not ok and dev_id == HGI and case["active"] is None:
+                # while the radio's real id is unknown the library knows the active gateway AS the placeholder 18:000730 (protocol.hgi_id),
+                # and Gateway.get_device() exempts 'the gateway' by that id: the placeholder's device is the gateway's own, not a filtered id
+                if col is not None:
+                    col.note("device 18:000730 (the placeholder = the active gateway while its id is unknown) created from the cache: tallied")
+                continue
+            if col is not None:
+                col.case(classes=["gateway:device-after-restore", f"dev:{why}"])
+            if not ok:
+                out.append(({"clause": "device-for-disallowed-id", "why": why, "via": "restored-cache", "id_kind": "placeholder-18:000730" if dev_id == HGI else f"type-{dev_id[:2]}"}, f"device {dev_id} exists after start(cached_packets=...) although {why} under {_cfg_brief(case)}"))
     # one report per (clause, why) per case is enough
     seen, uniq = set(), []
     for sig, d in out:
